@@ -135,15 +135,21 @@ std::string AnalyzerInformation::skipAnalysis(const tinyxml2::XMLDocument &analy
 
 std::string AnalyzerInformation::getAnalyzerInfoFileFromFilesTxt(std::istream& filesTxt, const std::string &sourcefile, const std::string &cfg, int fsFileId)
 {
+    // an entry for exactly this path wins; otherwise the first entry that names the trailing path components
+    std::string fallback;
     std::string line;
     while (std::getline(filesTxt,line)) {
         AnalyzerInformation::Info filesTxtInfo;
         if (!filesTxtInfo.parse(line))
             continue; // TODO: report error?
-        if (endsWith(sourcefile, filesTxtInfo.sourceFile) && filesTxtInfo.cfg == cfg && filesTxtInfo.fsFileId == fsFileId)
+        if (filesTxtInfo.cfg != cfg || filesTxtInfo.fsFileId != fsFileId)
+            continue;
+        if (sourcefile == filesTxtInfo.sourceFile)
             return filesTxtInfo.afile;
+        if (fallback.empty() && endsWith(sourcefile, '/' + filesTxtInfo.sourceFile))
+            fallback = filesTxtInfo.afile;
     }
-    return "";
+    return fallback;
 }
 
 std::string AnalyzerInformation::getAnalyzerInfoFile(const std::string &buildDir, const std::string &sourcefile, const std::string &cfg, std::size_t fsFileId)
